@@ -79,10 +79,20 @@ Ideal(o, ps, ms, d, v) ==
 \* machine
 \*   ps    the proportions of the components now
 \*   pn    the proportions when Matter._norm last ran (= ps in the code as it is: add() always ends in _norm())
-\*   pert  the caller has converted the density attributes, in place, to other units (number density to m-3)
-Machine(o, ps, pn, pert, ms, d, v, mut) ==
+\*   ctx   what happened before the object is observed:
+\*           "perturbed"  the caller has converted the density attributes in place (number density to m-3)
+\*           "operand"    the object was the right operand of a sum, and its last component was topped up IN THE SUM
+\*           "second"     another composite with the same components and the proportions pn was made before
+\*           ""           nothing
+QLe1(q) == q[1] <= q[2]
+\* Substance._add_expr writes a count only when it is > 1: the expression texts of two proportion vectors coincide
+SameText(a, b) == \A i \in 1..Len(a) : a[i] = b[i] \/ (QLe1(a[i]) /\ QLe1(b[i]))
+Machine(o, ps, pn, ctx, ms, d, v, mut) ==
   LET k  == Len(ps)
-      pd == IF mut = "stale_matter_norm" THEN pn ELSE ps
+      pert == ctx = "perturbed"
+      pd == IF mut = "stale_matter_norm" THEN pn
+            ELSE IF mut = "norm_cached_by_text" /\ ctx = "second" /\ SameText(ps, pn) THEN pn
+            ELSE ps
       \* composite_mass after the first j components, and whether it is a mass
       cmj(j) == IF o.cls = "element"
                 THEN (IF "element_proportion" \in Deviations THEN QMul(CDa, ms[1])       \* Element: self.mass, one atom
@@ -102,7 +112,10 @@ Machine(o, ps, pn, pert, ms, d, v, mut) ==
              ELSE IF incremental THEN QMul(ds, cmj(1)) ELSE QMul(ds, cm)
       n   == IF o.given = "rho" THEN QDiv(ds, cm)
              ELSE IF incremental THEN QDiv(rho, cm) ELSE ds
-      a   == IF mut = "n_not_scaled" THEN [i \in 1..k |-> <<1, 1>>] ELSE ps             \* rows use m.proportion
+      a   == IF mut = "n_not_scaled" THEN [i \in 1..k |-> <<1, 1>>]                     \* rows use m.proportion
+             ELSE IF mut = "operand_aliased" /\ ctx = "operand"                          \* ... of a Component the sum shares
+             THEN [i \in 1..k |-> IF i = k THEN QAdd(ps[i], <<2, 1>>) ELSE ps[i]]
+             ELSE ps
       \* data_matter multiplies the Quantity number_density (unit-aware); a mutation takes its bare number instead
       nr  == IF mut = "n_unit_blind" /\ pert THEN QMul(n, QP10(6)) ELSE n
       w   == Vals(rho, n, nr, V, a, ms, o.vol)
@@ -159,7 +172,10 @@ OtherObj(o) == [o EXCEPT !.ud = o.ud2, !.uv = o.uv2]
 (* The objects of a scenario in the order the harness makes and observes   *)
 (* them.  how: build (from props, then steps add(component i, q)) |        *)
 (* perturb (the object of[1] after the caller converted every quantity it  *)
-(* reports or holds as an attribute, in place, to another unit).           *)
+(* reports or holds as an attribute, in place, to another unit) | sum      *)
+(* (of[1] + of[2], then steps) | again (of[1] observed once more).         *)
+(* silent objects carry no density and are not observed; an object has the *)
+(* first Len(eff) components.                                              *)
 (***************************************************************************)
 JOf(o, k) == IF o.j = 1 THEN 1 ELSE k
 EffTerms(o, k) == LET props == [i \in 1..k |-> Inp("A.p." \o IStr(i))]
@@ -167,7 +183,9 @@ EffTerms(o, k) == LET props == [i \in 1..k |-> Inp("A.p." \o IStr(i))]
                       ELSE props
 Objects(o, k) ==
   LET props == [i \in 1..k |-> Inp("A.p." \o IStr(i))]
-      A == [name |-> "A", how |-> "build", of |-> <<>>, cls |-> o.cls, mode |-> o.mode, form |-> o.form, props |-> props,
+      pB    == [i \in 1..k |-> Inp("B.p." \o IStr(i))]
+      A == [name |-> "A", how |-> "build", of |-> <<>>, silent |-> FALSE, cls |-> o.cls, mode |-> o.mode, form |-> o.form,
+            props |-> props, eff |-> EffTerms(o, k),
             steps |-> IF o.kind = "add_existing" THEN <<[i |-> JOf(o, k), q |-> Inp("A.q")]>> ELSE <<>>,
             given |-> o.given, vol |-> o.vol, d |-> Inp("A.d"), ud |-> o.ud, v |-> Inp("A.v"), uv |-> o.uv]
   IN  CASE o.kind = "units" ->
@@ -175,6 +193,16 @@ Objects(o, k) ==
                             !.d = Mul(Inp("A.d"), P10(UExp(o.ud) - UExp(o.ud2))),
                             !.v = Mul(Inp("A.v"), P10(UExp(o.uv) - UExp(o.uv2)))]>>
         [] o.kind = "perturbed" -> <<A, [A EXCEPT !.name = "P", !.how = "perturb", !.of = <<"A">>]>>
+        \* another composite of the same components, made afterwards in the same process
+        [] o.kind = "second" -> <<A, [A EXCEPT !.name = "B", !.props = pB, !.eff = pB]>>
+        \* L (without density, lacking A's last component) + A, then the sum's last component is topped up; A again
+        [] o.kind = "sum_then_add" ->
+             << A,
+                [A EXCEPT !.name = "L", !.silent = TRUE, !.given = "", !.vol = FALSE,
+                          !.props = SubSeq(props, 1, k - 1), !.eff = SubSeq(props, 1, k - 1)],
+                [A EXCEPT !.name = "R", !.how = "sum", !.of = <<"L", "A">>, !.silent = TRUE, !.given = "", !.vol = FALSE,
+                          !.props = <<>>, !.steps = <<[i |-> k, q |-> Inp("A.q")]>>],
+                [A EXCEPT !.name = "A2", !.how = "again", !.of = <<"A">>] >>
         [] OTHER -> <<A>>
 Obligations(o, k) ==
   LET objs == Objects(o, k) IN
@@ -182,24 +210,31 @@ Obligations(o, k) ==
   \o (CASE o.kind = "units" -> ObjObl("B", OtherObj(o), objs[2].props, objs[2].d, objs[2].v) \o SameObl("units", "A", "B", o, k)
          [] o.kind = "perturbed" -> ObjObl("P", o, objs[2].props, objs[2].d, objs[2].v)
                                     \o SameObl("unit of a reported quantity changed", "A", "P", o, k)
+         [] o.kind = "second" -> ObjObl("B", o, objs[2].props, objs[2].d, objs[2].v)
+         [] o.kind = "sum_then_add" -> ObjObl("A2", o, objs[1].props, objs[1].d, objs[1].v)
+                                       \o SameObl("operand unchanged after the sum was changed", "A", "A2", o, k)
          [] OTHER -> <<>>)
 
-\* F(o, ps, pn, pert, ms, d, v) yields the values (ideal or machine); raises propagates
+\* F(o, ps, pn, ctx, ms, d, v) yields the values (ideal or machine); raises propagates
 QAdded == <<2, 1>>                                \* model value of inp(A.q)
 ScVals(o, ps, ms, d, v, F(_, _, _, _, _, _, _)) ==
   CASE o.kind = "units" ->
-         <<F(o, ps, ps, FALSE, ms, d, v),
-           F(OtherObj(o), ps, ps, FALSE, ms, QMul(d, QP10(UExp(o.ud) - UExp(o.ud2))), QMul(v, QP10(UExp(o.uv) - UExp(o.uv2))))>>
+         <<F(o, ps, ps, "", ms, d, v),
+           F(OtherObj(o), ps, ps, "", ms, QMul(d, QP10(UExp(o.ud) - UExp(o.ud2))), QMul(v, QP10(UExp(o.uv) - UExp(o.uv2))))>>
     [] o.kind = "add_existing" ->
-         <<F(o, [i \in 1..Len(ps) |-> IF i = JOf(o, Len(ps)) THEN QAdd(ps[i], QAdded) ELSE ps[i]], ps, FALSE, ms, d, v)>>
-    [] o.kind = "perturbed" -> <<F(o, ps, ps, FALSE, ms, d, v), F(o, ps, ps, TRUE, ms, d, v)>>
-    [] OTHER -> <<F(o, ps, ps, FALSE, ms, d, v)>>
+         <<F(o, [i \in 1..Len(ps) |-> IF i = JOf(o, Len(ps)) THEN QAdd(ps[i], QAdded) ELSE ps[i]], ps, "", ms, d, v)>>
+    [] o.kind = "perturbed" -> <<F(o, ps, ps, "", ms, d, v), F(o, ps, ps, "perturbed", ms, d, v)>>
+    [] o.kind = "second" -> <<F(o, ps, ps, "", ms, d, v), F(o, [i \in 1..Len(ps) |-> QDiv(ps[i], <<2, 1>>)], ps, "second", ms, d, v)>>
+    [] o.kind = "sum_then_add" -> <<F(o, ps, ps, "", ms, d, v), F(o, ps, ps, "operand", ms, d, v)>>
+    [] OTHER -> <<F(o, ps, ps, "", ms, d, v)>>
 ScRaises(ws) == \E i \in 1..Len(ws) : ws[i].raises
 ScEnv(o, ps, ms, d, v, ws) ==
-  LET base == EnvSeq("inp:A.p.", ps, 1) @@ ("inp:A.d" :> d) @@ ("inp:A.v" :> v) @@ ("inp:A.q" :> QAdded) @@ (TabKey(CTerm) :> CDa)
+  LET base == EnvSeq("inp:A.p.", ps, 1) @@ EnvSeq("inp:B.p.", [i \in 1..Len(ps) |-> QDiv(ps[i], <<2, 1>>)], 1) @@ ("inp:A.d" :> d) @@ ("inp:A.v" :> v) @@ ("inp:A.q" :> QAdded) @@ (TabKey(CTerm) :> CDa)
              @@ ObjEnv("A", ws[1], ms, o)
   IN  IF Len(ws) = 1 THEN base
       ELSE IF o.kind = "units" THEN base @@ ObjEnv("B", ws[2], ms, OtherObj(o))
+      ELSE IF o.kind = "second" THEN base @@ ObjEnv("B", ws[2], ms, o)
+      ELSE IF o.kind = "sum_then_add" THEN base @@ ObjEnv("A2", ws[2], ms, o)
       ELSE base @@ ObjEnv("P", ws[2], ms, o)
 
 ---------------------------------------------------------------------------
@@ -222,7 +257,10 @@ Scenarios ==
       adds == {[t EXCEPT !.kind = "add_existing", !.j = jj] : t \in {u \in hist : u.cls # "element"}, jj \in {1, 2}}
       \* the caller converts what the object reports / holds, in place, to other units
       perts == {[t EXCEPT !.kind = "perturbed"] : t \in hist}
-  IN  single \cup pairs \cup adds \cup perts
+      \* histories of several composites in one process
+      seconds == {[t EXCEPT !.kind = "second"] : t \in {u \in hist : u.cls # "element"}}
+      sumadds == {[t EXCEPT !.kind = "sum_then_add", !.j = 2] : t \in {u \in hist : u.cls # "element"}}
+  IN  single \cup pairs \cup adds \cup perts \cup seconds \cup sumadds
 
 VARIABLES comps, sc, dv
 Init == comps = <<>> /\ sc = NoSc /\ dv = <<0, 0>>
@@ -238,8 +276,8 @@ Next == /\ sc = NoSc
 K  == Len(comps)
 Ps == [i \in 1..K |-> QI(comps[i].p)]
 Ms == [i \in 1..K |-> QI(comps[i].m)]
-Ideal5(o, ps, pn, pert, ms, d, v) == Ideal(o, ps, ms, d, v)
-Mach5(o, ps, pn, pert, ms, d, v)  == Machine(o, ps, pn, pert, ms, d, v, "")
+Ideal5(o, ps, pn, ctx, ms, d, v) == Ideal(o, ps, ms, d, v)
+Mach5(o, ps, pn, ctx, ms, d, v)  == Machine(o, ps, pn, ctx, ms, d, v, "")
 
 DevTags(o, ps) == (IF o.cls = "material" /\ o.mode = "MASS_FRACTION" THEN {"mass_fraction_mode"} ELSE {})
                   \cup (IF o.cls = "element" /\ ps[1] # <<1, 1>> THEN {"element_proportion"} ELSE {})
@@ -272,7 +310,7 @@ SoundMachine == sc # NoSc => \/ DevTags(sc, Ps) \cap KnownDevs # {}
 Complete ==
   sc # NoSc =>
     \A mu \in Mutants \cup {""} :
-        LET MutF(o, ps, pn, pert, ms, dd, vv) == Machine(o, ps, pn, pert, ms, dd, vv, mu)
+        LET MutF(o, ps, pn, ctx, ms, dd, vv) == Machine(o, ps, pn, ctx, ms, dd, vv, mu)
             wx == ScVals(sc, Ps, Ms, DNow, VNow, MutF)
         IN  (~ScRaises(wx) /\ wx # WIdeal) => ~AllHoldQ(OblNow, ScEnv(sc, Ps, Ms, DNow, VNow, wx))
 EmitRec ==
